@@ -43,6 +43,7 @@ type Source struct {
 	Stream  string `json:"stream_hex"`
 	Missing bool   `json:"missing,omitempty"` // files mode: the path does not exist
 	Gz      bool   `json:"gz,omitempty"`      // files mode with Gunzip: the file holds the gzip encoding of the stream
+	Fifo    bool   `json:"fifo,omitempty"`    // files mode: the path is a named pipe (stat size 0, not seekable); a writer delivers the stream once
 	Script  []Step `json:"script,omitempty"`  // reader mode
 }
 
@@ -324,6 +325,23 @@ type built struct {
 	nameIdx map[string]int
 	fac     *recFactory
 	rng     *Rng
+	fifos   []string
+	fifoWg  sync.WaitGroup
+}
+
+// releaseFifos lets the writers of named pipes that the code under test never opened finish
+func (b *built) releaseFifos() {
+	for _, p := range b.fifos {
+		if fd, err := syscall.Open(p, syscall.O_RDONLY|syscall.O_NONBLOCK, 0); err == nil {
+			defer syscall.Close(fd)
+		}
+	}
+	done := make(chan struct{})
+	go func() { b.fifoWg.Wait(); close(done) }()
+	select {
+	case <-done:
+	case <-time.After(5 * time.Second):
+	}
 }
 
 func build(cfg Config, sources []Source, dir string) (*built, error) {
@@ -353,7 +371,20 @@ func build(cfg Config, sources []Source, dir string) (*built, error) {
 					zw.Close()
 					bs = zb.Bytes()
 				}
-				if err := os.WriteFile(p, bs, 0o644); err != nil {
+				if s.Fifo {
+					if err := syscall.Mkfifo(p, 0o644); err != nil {
+						return nil, err
+					}
+					b.fifos = append(b.fifos, p)
+					b.fifoWg.Add(1)
+					go func(p string, bs []byte) {
+						defer b.fifoWg.Done()
+						if f, err := os.OpenFile(p, os.O_WRONLY, 0); err == nil { // blocks until the pipe is opened for reading
+							f.Write(bs)
+							f.Close()
+						}
+					}(p, bs)
+				} else if err := os.WriteFile(p, bs, 0o644); err != nil {
 					return nil, err
 				}
 			}
@@ -446,7 +477,8 @@ func run(cfg Config, sources []Source, dir string) Result {
 		res.Delivered = append(res.Delivered, hex.EncodeToString(rd.delivered))
 		res.ReadErr = append(res.ReadErr, rd.failed)
 	}
-	if cfg.Cli && cfg.Mode != "reader" {
+	bl.releaseFifos()
+	if cfg.Cli && cfg.Mode != "reader" && len(bl.fifos) == 0 {
 		res.Cli = runCli(cfg, sources, dir)
 	}
 	res.Completed = true
